@@ -19,5 +19,5 @@ SPECS = [
     dict(name='EdgeCpp', file='optimism/contact/EdgeCpp.py', deps=['Surface', 'SmoothFunctions'],
          funcs=[('norm_squared', ['V2']), ('dot', ['V2', 'V2']), ('cross', ['V2', 'V2']),
                 ('cpp_line', ['M22', 'V2']), ('cpp', ['M22', 'V2']), ('cpp_distance', ['M22', 'V2']),
-                ('area', ['V2', 'V2', 'V2']), ('smooth_distance', ['A2x2x2', 'V2', 'S'])]),
+                ('area', ['V2', 'V2', 'V2']), ('smooth_distance', ['A2x2x2', 'V2', 'S']), ('smoothstep', ['S'])]),
 ]
